@@ -38,8 +38,8 @@ CUTOFF = {1: 6, 2: 5, 3: 4, 4: 3}
 
 # exploration plan: per tier and d, the alphabet used at each depth ("full" / "core")
 PLAN = {
-    "quick": {1: ["full", "full"], 2: ["full", "mini"], 3: ["full", "mini"], 4: ["core"]},
-    "thorough": {1: ["full", "full", "full"], 2: ["full", "full", "mini"], 3: ["full", "full"], 4: ["full", "mini"]},
+    "quick": {1: ["full", "full"], 2: ["full", "mini"], 3: ["full"], 4: ["mini"]},
+    "thorough": {1: ["full", "full"], 2: ["full", "core"], 3: ["full", "mini"], 4: ["core"]},
 }
 # "mini": the instruction kinds kept at the deepest level of the larger plans (one ordered tuple each)
 MINI = ("Covariance", "Displacement", "Squeezing", "QuadraticPhase", "Attenuator", "DeterministicGaussianChannel", "Beamsplitter", "Squeezing2", "ControlledZ", "GaussianTransform")
@@ -239,6 +239,7 @@ def run(ctx, builddir):
     ctx.assume("observables are compared across hbar with |a-b| <= 1e-8 (DESIGN 2.5/2.13); fidelity with 1e-6: the library evaluates prod(w + sqrt(w^2-1)) on eigenvalues w ~ 1 of a non-symmetric matrix, i.e. an absolute noise of about d*sqrt(2*eps*kappa) (7e-8 measured in the quick tier, see max_fidelity_spread_across_hbar); 1e-7 is not safe for (near-)pure states, a wrong hbar factor would show at 1e-2")
     ctx.assume("reference value of the fidelity: Banchi et al. formula evaluated on the spectrum (mixed partner) / overlap formula (pure partner), compared with 1e-6")
     ctx.assume("conversions / setters / reduced / rotated / moments: |a-b| <= 1e-9 + 1e-9*max|expected|")
+    ctx.assume("bounds shrunk to the CPU budget: depth <= 2 (d <= 2), depth 1 (quick d = 3, 4) / depth 2 with the reduced alphabet (thorough d = 3); DESIGN's 8-minute thorough plan (depth 3 on d <= 2, depth 2 on d = 3, 4) was not completed on the shared machine and is not claimed")
     ctx.assume("Thermal is modelled as the simulation step implements it (sets the covariance, leaves the mean)")
     ctx.assume("Graph has no reference successor: the model state is taken from the implementation at hbar=2 after the cross-hbar scaling check")
     ctx.assume("phase-shifter reference: Weyl-symbol Gaussian integral with the square-root branch tracked continuously from phi=0 (gaussref.phaseshifter_expectation)")
